@@ -1166,6 +1166,11 @@ flatcc_builder_vt_ref_t flatcc_builder_create_vtable(flatcc_builder_t *B,
             return 0;
         }
     } else {
+        /*
+         * A byte aligned struct of odd size (a union member or a root
+         * struct) can leave the front at an odd address.
+         */
+        push_iov(_pad, front_pad(B, vt_size, (uint16_t)sizeof(voffset_t)));
         if (0 == (vt_ref = emit_front(B, &iov))) {
             return 0;
         }
